@@ -257,6 +257,9 @@ type vf04Source struct {
 	concrete bool
 	// quic: the hello is built by a UQUICConn (UQUICClient): no legacy session id, same GREASE rules
 	quic bool
+	// moved > 0: a hand-edited copy of the parrot's spec whose GREASE placeholders are NOT at the head of the cipher,
+	// group and version lists (rotated by this amount): GREASE is GREASE wherever it stands
+	moved int
 }
 
 // vf04Concretize replaces every GREASE value of the spec's cipher, group, version and key-share lists by a fixed
@@ -300,8 +303,11 @@ func (s *vf04Source) name() string {
 	if s.concrete {
 		k += "(concrete reserved values in the spec)"
 	}
-	if s.quic {
+	if s.quic && s.moved == 0 {
 		k += "(UQUICClient)"
+	}
+	if s.moved > 0 {
+		k += fmt.Sprintf("(GREASE placeholders moved by %d)", s.moved)
 	}
 	if s.share {
 		return k + "(one spec object for all connections):" + s.parrot.Name
@@ -335,6 +341,42 @@ func vf04Hello(s *vf04Source, rnd *vfDetRand, name string) (raw []byte, exp vf04
 			return
 		}
 		exp = vf04ExpectOf(&spec)
+		if s.moved > 0 {
+			rot := func(l []uint16) []uint16 {
+				if len(l) < 2 || !vfIsGREASE(l[0]) {
+					return l
+				}
+				k := 1 + (s.moved-1)%(len(l)-1)
+				out := append([]uint16(nil), l[1:k+1]...)
+				out = append(out, l[0])
+				return append(out, l[k+1:]...)
+			}
+			spec.CipherSuites = rot(spec.CipherSuites)
+			for _, x := range spec.Extensions {
+				switch ext := x.(type) {
+				case *SupportedCurvesExtension:
+					l := make([]uint16, len(ext.Curves))
+					for i, c := range ext.Curves {
+						l[i] = uint16(c)
+					}
+					l = rot(l)
+					for i := range l {
+						ext.Curves[i] = CurveID(l[i])
+					}
+				case *SupportedVersionsExtension:
+					ext.Versions = rot(ext.Versions)
+				}
+			}
+			exp = vf04ExpectOf(&spec)
+			c := UClient(cp, cfg, HelloCustom)
+			if err = c.ApplyPreset(&spec); err != nil {
+				return
+			}
+			if err = c.BuildHandshakeState(); err != nil {
+				return
+			}
+			return c.HandshakeState.Hello.Raw, exp, "", nil
+		}
 		c := UClient(cp, cfg, s.id)
 		if s.quic {
 			q := UQUICClient(&QUICConfig{TLSConfig: cfg}, s.id)
@@ -456,6 +498,9 @@ func vf04RunSource(st *vfStats, t vfFataler, s *vf04Source, conns int, streamSee
 	if s.quic {
 		st.Class("source:built-by-UQUICClient")
 	}
+	if s.moved > 0 {
+		st.Class("source:GREASE-not-at-the-head-of-its-lists")
+	}
 	if seen.withGrease > 0 {
 		st.Class("with-grease:" + s.kind)
 		st.NonTrivial(fmt.Sprintf("%s|%d|%v", s.name(), streamSeed, det))
@@ -485,7 +530,8 @@ func vf04GenSource(rt *rapid.T) *vf04Source {
 		return &vf04Source{kind: "json", parrot: p, id: p.ID}
 	default:
 		p := vfGenParrot(rt, "parrot")
-		return &vf04Source{kind: "parrot", parrot: p, id: p.ID, quic: rapid.IntRange(0, 3).Draw(rt, "via_uquic") == 0}
+		return &vf04Source{kind: "parrot", parrot: p, id: p.ID, quic: rapid.IntRange(0, 3).Draw(rt, "via_uquic") == 0,
+			moved: rapid.SampledFrom([]int{0, 0, 0, 1, 2, 5}).Draw(rt, "grease_moved")}
 	}
 }
 
@@ -516,6 +562,7 @@ func TestVerifC04AllParrots(t *testing.T) {
 		vf04RunSource(st, t, &vf04Source{kind: "parrot", parrot: p, id: p.ID}, vf04Conns, uint64(1000+i), true)
 		vf04RunSource(st, t, &vf04Source{kind: "parrot", parrot: p, id: p.ID}, 16, 0, false)
 		vf04RunSource(st, t, &vf04Source{kind: "parrot", parrot: p, id: p.ID, quic: true}, 16, uint64(6000+i), true)
+		vf04RunSource(st, t, &vf04Source{kind: "parrot", parrot: p, id: p.ID, moved: 1 + i%3}, 16, uint64(7000+i), true)
 		vf04RunSource(st, t, &vf04Source{kind: "fingerprinted", parrot: p, id: p.ID}, vf04Conns, uint64(2000+i), true)
 		vf04RunSource(st, t, &vf04Source{kind: "json", parrot: p, id: p.ID}, 8, uint64(3000+i), true)
 		vf04RunSource(st, t, &vf04Source{kind: "fingerprinted", parrot: p, id: p.ID, share: true}, 12, uint64(4000+i), true)
